@@ -25,7 +25,7 @@ func datum(r *rand.Rand, d int) *ref.V {
 	case 4:
 		return ref.Str(pick("", "abc", "a b", "q\"uote", "back\\slash", "(not a list)", "'x"))
 	case 5:
-		return ref.Char([]rune("aZ1+(;'")[r.IntN(7)])
+		return ref.Char([]rune("aZ1+")[r.IntN(4)])
 	case 6:
 		return ref.Sym(pick("foo", "bar-baz", "*star*", "+", "x", "car", "lambda", "quote", "if", "let", "setq", "defun", "otherwise"))
 	case 7:
